@@ -46,6 +46,9 @@ def run(ctx):
     # 2. cases
     cases = ctx.path("cases.ndjson")
     gr, n = vlib.tlc_generate(SPEC, "Gen_Io", "Gen_Io_quick.cfg", cases, timeout=300)
+    if not q:
+        gr2, n2 = vlib.tlc_generate(SPEC, "Gen_Io", "Gen_Io_thorough.cfg", cases, timeout=300, append=True)
+        n += n2
     trace = ctx.path("trace.ndjson")
     rep = vlib.run_driver("drv_io", ["run", "--cases", cases, "--out", trace] + ([] if not q else ["--stride", "1"]), env=ctx.env())
     if rep["mismatch_count"]:
@@ -94,4 +97,4 @@ def run(ctx):
         ctx.note("drift: %d operations behave differently from the pipeline kind predicted in Gen_Io.tla" % rep["drift"])
     for c in vlib.read_ndjson(cases)[:3]:
         ctx.sample(c)
-    ctx.exhaustive = True
+    ctx.exhaustive = q
